@@ -139,7 +139,8 @@ def c01(ctx):
     cases = ctx.path("cases.ndjson")
     o, _, _ = run_tlc(ctx, "Gen_Civil", env={"WHICH": "C01", "OUT": cases})
     mism = ctx.path("mism.ndjson")
-    s = harness_json(["replay", "--cases", cases, "--out", mism])
+    # each constructor call also as the first call of a new thread (no call history)
+    s = harness_json(["replay", "--cases", cases, "--out", mism, "--fresh-threads"])
     cases_to_violations(ctx, s, mism, lambda c: "C01." + c["op"][2:])
     offset_date_cases(ctx)
     ndays = 1 << 32
@@ -240,7 +241,9 @@ def gen_cases(ctx, module, which, shards, cfg=None):
 
 def replay_cases(ctx, cases, profile="release"):
     mism = cases + ".mism"
-    s = harness_json(["replay", "--cases", cases, "--out", mism], profile=profile)
+    # C15 (constructors): each call also as the first call of a new thread, i.e. without any call history
+    extra = ["--fresh-threads"] if ctx.pid == "C15" else []
+    s = harness_json(["replay", "--cases", cases, "--out", mism] + extra, profile=profile)
     ctx.evaluations += s["cases"]
     for smp in s.get("samples", [])[:2]:
         ctx.sample(smp)
